@@ -58,15 +58,21 @@ def tB : TableDef := ⟨"b", [⟨"x", "INT", false, false⟩]⟩
 def viewWitness : List Op :=
   [.create tA, .createView "v", .create tB, .insert "b" [[[.i32 1]]]]
 
-/-- compaction leaves the DVs of the row-sets it removes in the snapshot; DROP TABLE only deletes
-the DVs of row-sets that are still live; the surviving `AddDV` names a table that no longer exists -/
+/-- the history that made bootstrap panic before repository commit 5071ff5 (compaction left the DVs
+of the row-sets it removed in the snapshot, DROP TABLE deleted only the DVs of live row-sets, the
+surviving `AddDV` named a table that no longer existed) -/
 def staleDvWitness : List Op :=
   [.create tA, .insert "a" [[[.i32 1], [.i32 2]]], .insert "a" [[[.i32 3]]],
    .delete "a" (fun r => r == [.i32 1]), .compact [(0, [0, 1])], .drop "a"]
 
 theorem reopen_fails_view_witness : (run (.up Store.init) (viewWitness ++ [.reopen])).isDead = true := by decide
 
-theorem reopen_fails_stale_dv_witness : (run (.up Store.init) (staleDvWitness ++ [.reopen])).isDead = true := by decide
+/-- **DROP after a compaction that removed DV-carrying row-sets reopens** (positive form of the former
+finding `reopen:stale-dv-of-dropped-table`, repaired by 5071ff5: the compaction commit deletes the
+delete vectors together with their row-sets) -/
+theorem drop_after_compaction_reopens :
+    GoodHist Store.init (staleDvWitness ++ [.reopen]) ∧
+      (run (.up Store.init) (staleDvWitness ++ [.reopen])).isDead = false := by decide
 
 theorem reopen_refines_full_unsound : ¬ ReopenRefinesFull := by
   intro h
@@ -142,38 +148,27 @@ theorem ids_fresh_after_reopen_partial (s s' : Store) (h : s.reopen = .ok s') :
             have hk : e.key ∈ b.dvOpen := by rw [← hsp.1]; exact List.mem_map_of_mem he
             exact hf.2.1 e.key hk
 
-/-- Full statement: a fresh row-set id is also above every row-set id a *delete vector* of the
-snapshot still names (otherwise that DV applies to the new row-set). -/
-def IdsFreshFull : Prop :=
-  ∀ (h : List Op) (s : Store), run (.up Store.init) h = .up s → ∀ e ∈ s.dvs, e.rs < s.nextRs
-
-/-- delete everything, compact (both row-sets vanish, their DVs stay), reopen twice: the counter
-restarts below the row-set ids the stale DVs name -/
+/-- the history of the former finding `reopen:rowset-id-reissued-under-stale-dv`: delete everything,
+compact (both row-sets vanish - and, since 5071ff5, their DVs with them), reopen twice -/
 def staleIdWitness : List Op :=
   [.create tA, .insert "a" [[[.i32 1], [.i32 2]]], .insert "a" [[[.i32 3]]],
    .delete "a" (fun _ => true), .compact [(0, [0, 1])], .reopen, .reopen]
 
-theorem ids_fresh_full_unsound : ¬ IdsFreshFull := by
-  intro h
-  cases hr : run (.up Store.init) staleIdWitness with
-  | dead w =>
-    have : (run (.up Store.init) staleIdWitness).isDead = false := by decide
-    rw [hr] at this; simp [St.isDead] at this
-  | up s =>
-    have h1 := h staleIdWitness s hr
-    have : ∃ e ∈ s.dvs, ¬ e.rs < s.nextRs := by
-      have : St.up s = run (.up Store.init) staleIdWitness := hr.symm
-      have hs : s = match run (.up Store.init) staleIdWitness with | .up x => x | .dead _ => {} := by rw [← this]
-      subst hs
-      decide
-    obtain ⟨e, he, hn⟩ := this
-    exact hn (h1 e he)
-
-/-- … and the consequence for queries: rows inserted afterwards are hidden by the stale vector. -/
-theorem stale_dv_hides_new_rows :
+/-- rows inserted after that history are visible (before the repair a stale vector hid them) -/
+theorem no_stale_dv_hides_new_rows :
     (match run (.up Store.init) (staleIdWitness ++ [.insert "a" [[[.i32 5], [.i32 6]]]]) with
      | .up s => s.abs "a"
-     | .dead _ => none) = some (tA, []) := by decide
+     | .dead _ => none) = some (tA, [[.i32 5], [.i32 6]]) := by decide
+
+/-- what is left of that family: delete-vector FILES are never unlinked, so once both id counters
+have restarted a (table, row-set, DV) triple is handed out again and `create_new` fails.  The
+history is rejected by `deleteGuard` (and the engine's DELETE fails with "File exists"). -/
+def dvFileWitness : List Op :=
+  [.create tA, .insert "a" [[[.i32 1], [.i32 2]]], .insert "a" [[[.i32 3]]],
+   .delete "a" (fun r => r != [.i32 3]), .delete "a" (fun _ => true), .compact [(0, [0, 1])], .reopen, .reopen,
+   .insert "a" [[[.i32 5]]], .delete "a" (fun _ => true)]
+
+theorem dv_file_reuse_witness : ¬ GoodHist Store.init dvFileWitness := by decide
 
 /-! ## Histories (the invariant behind `ReopenHyp`) -/
 
@@ -181,9 +176,9 @@ theorem stale_dv_hides_new_rows :
 to the live catalog / tables / row-sets / DVs, the files exist, ids are fresh), by induction over
 histories of CREATE/DROP TABLE, INSERT (any partition into row-sets), DELETE, compaction passes
 (any plan), vacuum passes and shutdown+reopen cycles in any order.  `GoodHist` evaluates `Guard` in
-the state each statement is issued in; its clauses are exactly the defect shapes: no view/index
-creation, no DROP of a table that still has delete vectors of compacted-away row-sets, no reopen
-while such a stale vector names a row-set id above every live one (and no NULL into NOT NULL). -/
+the state each statement is issued in: no view/index creation, no DELETE whose delete-vector file
+already exists (DV files are never unlinked), no NULL into NOT NULL.  (The DROP and reopen guards
+of the first version are gone with repository commit 5071ff5.) -/
 theorem history_reaches_invariant (h : List Op) (g : GoodHist Store.init h) :
     ∃ s, run (.up Store.init) h = .up s ∧ Inv s :=
   hist_inv h Store.init inv_init g
@@ -193,32 +188,30 @@ succeeds, every table has the same definition and the same rows, and the reopene
 satisfies the invariant again (so it accepts further statements, and any number of cycles). -/
 theorem reopen_refines (h : List Op) (g : GoodHist Store.init (h ++ [.reopen])) :
     ∃ s s', run (.up Store.init) h = .up s ∧ s.reopen = .ok s' ∧ Inv s' ∧ ∀ n, s'.abs n = s.abs n := by
-  have hsplit : ∀ (a : List Op) (s0 : Store), GoodHist s0 (a ++ [.reopen]) →
-      GoodHist s0 a ∧ ∀ s1, run (.up s0) a = .up s1 → ReopenGuard s1 := by
+  have hsplit : ∀ (a : List Op) (s0 : Store), GoodHist s0 (a ++ [.reopen]) → GoodHist s0 a := by
     intro a
     induction a with
-    | nil => intro s0 g0; exact ⟨trivial, fun s1 h1 => by cases h1; exact g0.1⟩
+    | nil => intro s0 _; trivial
     | cons op ops ih =>
       intro s0 g0
       have g1 := g0.2
       cases hs : (stepUp s0 op).1 with
-      | dead w =>
-        refine ⟨⟨g0.1, by rw [hs]; trivial⟩, ?_⟩
-        intro s1 h1
-        simp only [run, step, hs] at h1
-        have : ∀ (l : List Op), run (.dead w) l = .dead w := by
-          intro l; induction l with
-          | nil => rfl
-          | cons x xs ihx => simp [run, step, ihx]
-        rw [this] at h1; cases h1
+      | dead w => exact ⟨g0.1, by rw [hs]; trivial⟩
       | up s2 =>
         rw [hs] at g1
-        obtain ⟨i1, i2⟩ := ih s2 g1
-        exact ⟨⟨g0.1, by rw [hs]; exact i1⟩, fun s1 h1 => i2 s1 (by simpa only [run, step, hs] using h1)⟩
-  obtain ⟨g1, g2⟩ := hsplit h Store.init g
-  obtain ⟨s, hs, inv⟩ := hist_inv h Store.init inv_init g1
-  obtain ⟨s', r1, r2, r3, _⟩ := reopen_inv s inv (g2 s hs)
+        exact ⟨g0.1, by rw [hs]; exact ih s2 g1⟩
+  obtain ⟨s, hs, inv⟩ := hist_inv h Store.init inv_init (hsplit h Store.init g)
+  obtain ⟨s', r1, r2, r3, _⟩ := reopen_inv s inv
   exact ⟨s, s', hs, r1, r2, r3⟩
+
+/-- **ids_fresh_after_reopen, full form over guarded histories**: every row-set id and DV id the
+snapshot mentions - in a row-set entry or in a delete vector - is below the generators, also after
+any number of reopens (no DV outlives its row-set any more). -/
+theorem ids_fresh_full (h : List Op) (g : GoodHist Store.init h) :
+    ∃ s, run (.up Store.init) h = .up s ∧ (∀ k ∈ s.rowsets, k.2 < s.nextRs) ∧
+      (∀ e ∈ s.dvs, e.rs < s.nextRs ∧ e.dv < s.nextDv ∧ (e.tid, e.rs) ∈ s.rowsets) :=
+  let ⟨s, h1, inv⟩ := hist_inv h Store.init inv_init g
+  ⟨s, h1, inv.wf.rs, fun e he => ⟨inv.wf.dv e he, inv.dvIds e he, inv.dvLive e he⟩⟩
 
 /-- the reopened database accepts further (guarded) statements and keeps the invariant -/
 theorem reopen_accepts_ops (s : Store) (inv : Inv s) (h : List Op) (g : GoodHist s (.reopen :: h)) :
@@ -230,8 +223,7 @@ example : GoodHist Store.init ([.create tA, .insert "a" [[[.i32 1]], [[.i32 2]]]
   decide
 
 /-- the guards are not decoration: the refutation witnesses above are exactly the histories they reject -/
-example : ¬ GoodHist Store.init (staleDvWitness ++ [.reopen]) := by decide
-example : ¬ GoodHist Store.init (staleIdWitness ++ [.insert "a" [[[.i32 5]]]]) := by decide
+example : GoodHist Store.init (staleIdWitness ++ [.insert "a" [[[.i32 5]]]]) := by decide
 example : ¬ GoodHist Store.init (viewWitness ++ [.reopen]) := by decide
 
 end RlModel
